@@ -285,21 +285,21 @@ open BtcVerif.Model.ScriptEval BtcVerif.Spec.Script BtcVerif.Spec.Templates BtcV
 
 /-- pay-to-pubkey -/
 theorem p2pk_verify (c : Ctx) (fl : Flags) (body : Bytes) (ht : UInt8) (key : Bytes)
-    (hfl : fl.admissible = true) (hidx : 0 ≤ c.inIdx) (hk : key.length < 0x4c) (hs : body.length + 1 < 0x4c)
+    (hfl : fl.admissible = true) (hidx : c.SigTotal) (hk : key.length < 0x4c) (hs : body.length + 1 < 0x4c)
     (hne : body.length + 1 ≠ key.length) :
     verifyScript c fl (p2pkScriptSig (body ++ [ht])) (p2pkScript key) =
       if c.env.sigCheck body key (p2pkScript key) ht.toNat then .ok () else .error .verify :=
   verify_p2pk c fl body ht key hfl hidx hk hs hne
 
 theorem template_accepts_p2pk (c : Ctx) (fl : Flags) (body : Bytes) (ht : UInt8) (key : Bytes)
-    (hfl : fl.admissible = true) (hidx : 0 ≤ c.inIdx) (hk : key.length < 0x4c) (hs : body.length + 1 < 0x4c)
+    (hfl : fl.admissible = true) (hidx : c.SigTotal) (hk : key.length < 0x4c) (hs : body.length + 1 < 0x4c)
     (hne : body.length + 1 ≠ key.length)
     (horacle : c.env.sigCheck body key (p2pkScript key) ht.toNat = true) :
     verifyScript c fl (p2pkScriptSig (body ++ [ht])) (p2pkScript key) = .ok () := by
   rw [p2pk_verify c fl body ht key hfl hidx hk hs hne, horacle]; rfl
 
 theorem template_rejects_wrong_key_p2pk (c : Ctx) (fl : Flags) (body : Bytes) (ht : UInt8) (key : Bytes)
-    (hfl : fl.admissible = true) (hidx : 0 ≤ c.inIdx) (hk : key.length < 0x4c) (hs : body.length + 1 < 0x4c)
+    (hfl : fl.admissible = true) (hidx : c.SigTotal) (hk : key.length < 0x4c) (hs : body.length + 1 < 0x4c)
     (hne : body.length + 1 ≠ key.length)
     (horacle : c.env.sigCheck body key (p2pkScript key) ht.toNat = false) :
     verifyScript c fl (p2pkScriptSig (body ++ [ht])) (p2pkScript key) = .error .verify := by
@@ -307,7 +307,7 @@ theorem template_rejects_wrong_key_p2pk (c : Ctx) (fl : Flags) (body : Bytes) (h
 
 /-- pay-to-pubkey-hash, spent with the key whose HASH160 the script commits to -/
 theorem p2pkh_verify (c : Ctx) (fl : Flags) (body : Bytes) (ht : UInt8) (key : Bytes)
-    (hfl : fl.admissible = true) (hidx : 0 ≤ c.inIdx) (hk : key.length < 0x4c) (hs : body.length + 1 < 0x4c)
+    (hfl : fl.admissible = true) (hidx : c.SigTotal) (hk : key.length < 0x4c) (hs : body.length + 1 < 0x4c)
     (hhl : (c.env.hashes.hash160 key).length = 20) (hne : body.length + 1 ≠ 20) :
     verifyScript c fl (p2pkhScriptSig (body ++ [ht]) key) (p2pkhScript (c.env.hashes.hash160 key)) =
       if c.env.sigCheck body key (p2pkhScript (c.env.hashes.hash160 key)) ht.toNat then .ok ()
@@ -315,7 +315,7 @@ theorem p2pkh_verify (c : Ctx) (fl : Flags) (body : Bytes) (ht : UInt8) (key : B
   verify_p2pkh c fl body ht key hfl hidx hk hs hhl hne
 
 theorem template_accepts_p2pkh (c : Ctx) (fl : Flags) (body : Bytes) (ht : UInt8) (key : Bytes)
-    (hfl : fl.admissible = true) (hidx : 0 ≤ c.inIdx) (hk : key.length < 0x4c) (hs : body.length + 1 < 0x4c)
+    (hfl : fl.admissible = true) (hidx : c.SigTotal) (hk : key.length < 0x4c) (hs : body.length + 1 < 0x4c)
     (hhl : (c.env.hashes.hash160 key).length = 20) (hne : body.length + 1 ≠ 20)
     (horacle : c.env.sigCheck body key (p2pkhScript (c.env.hashes.hash160 key)) ht.toNat = true) :
     verifyScript c fl (p2pkhScriptSig (body ++ [ht]) key) (p2pkhScript (c.env.hashes.hash160 key)) = .ok () := by
@@ -323,7 +323,7 @@ theorem template_accepts_p2pkh (c : Ctx) (fl : Flags) (body : Bytes) (ht : UInt8
 
 /-- … with the right key but a signature the oracle rejects (made by another key / for another digest) -/
 theorem template_rejects_wrong_key_p2pkh (c : Ctx) (fl : Flags) (body : Bytes) (ht : UInt8) (key : Bytes)
-    (hfl : fl.admissible = true) (hidx : 0 ≤ c.inIdx) (hk : key.length < 0x4c) (hs : body.length + 1 < 0x4c)
+    (hfl : fl.admissible = true) (hidx : c.SigTotal) (hk : key.length < 0x4c) (hs : body.length + 1 < 0x4c)
     (hhl : (c.env.hashes.hash160 key).length = 20) (hne : body.length + 1 ≠ 20)
     (horacle : c.env.sigCheck body key (p2pkhScript (c.env.hashes.hash160 key)) ht.toNat = false) :
     verifyScript c fl (p2pkhScriptSig (body ++ [ht]) key) (p2pkhScript (c.env.hashes.hash160 key)) =
@@ -352,7 +352,7 @@ theorem matching_iff_greedy_reverse (chk : Bytes → Bytes → Bool) (sigs keys 
 /-- bare m-of-n multisig, 1 ≤ m ≤ n ≤ 20: accepted exactly when the m signatures can be assigned, in
     order, to m of the n keys such that the oracle accepts each pair -/
 theorem multisig_verify (c : Ctx) (fl : Flags) (m : Nat) (keys sigs : List Bytes)
-    (hfl : fl.admissible = true) (hidx : 0 ≤ c.inIdx) (hm1 : 1 ≤ m) (hmn : m ≤ keys.length)
+    (hfl : fl.admissible = true) (hidx : c.SigTotal) (hm1 : 1 ≤ m) (hmn : m ≤ keys.length)
     (hn : keys.length ≤ 20) (hsl : sigs.length = m)
     (hk : ∀ k ∈ keys, k.length < 0x4c) (hs : ∀ s ∈ sigs, s.length < 0x4c) (hs1 : ∀ s ∈ sigs, s.length ≠ 1)
     (hne : ∀ s ∈ sigs, ∀ k ∈ keys, s.length ≠ k.length) :
@@ -372,7 +372,7 @@ theorem multisig_verify (c : Ctx) (fl : Flags) (m : Nat) (keys sigs : List Bytes
 
 /-- every signature accepted for "its" key, the keys in order (`pos` strictly increasing): accepted -/
 theorem template_accepts_multisig (c : Ctx) (fl : Flags) (m : Nat) (keys sigs : List Bytes)
-    (hfl : fl.admissible = true) (hidx : 0 ≤ c.inIdx) (hm1 : 1 ≤ m) (hmn : m ≤ keys.length)
+    (hfl : fl.admissible = true) (hidx : c.SigTotal) (hm1 : 1 ≤ m) (hmn : m ≤ keys.length)
     (hn : keys.length ≤ 20) (hsl : sigs.length = m)
     (hk : ∀ k ∈ keys, k.length < 0x4c) (hs : ∀ s ∈ sigs, s.length < 0x4c) (hs1 : ∀ s ∈ sigs, s.length ≠ 1)
     (hne : ∀ s ∈ sigs, ∀ k ∈ keys, s.length ≠ k.length)
@@ -383,7 +383,7 @@ theorem template_accepts_multisig (c : Ctx) (fl : Flags) (m : Nat) (keys sigs : 
 /-- signatures repeated from one key, out of key order, or from a key that is not in the script
     admit no such assignment: rejected -/
 theorem template_rejects_wrong_key_multisig (c : Ctx) (fl : Flags) (m : Nat) (keys sigs : List Bytes)
-    (hfl : fl.admissible = true) (hidx : 0 ≤ c.inIdx) (hm1 : 1 ≤ m) (hmn : m ≤ keys.length)
+    (hfl : fl.admissible = true) (hidx : c.SigTotal) (hm1 : 1 ≤ m) (hmn : m ≤ keys.length)
     (hn : keys.length ≤ 20) (hsl : sigs.length = m)
     (hk : ∀ k ∈ keys, k.length < 0x4c) (hs : ∀ s ∈ sigs, s.length < 0x4c) (hs1 : ∀ s ∈ sigs, s.length ≠ 1)
     (hne : ∀ s ∈ sigs, ∀ k ∈ keys, s.length ≠ k.length)
@@ -393,7 +393,7 @@ theorem template_rejects_wrong_key_multisig (c : Ctx) (fl : Flags) (m : Nat) (ke
 
 /-- P2SH wrapping of pay-to-pubkey (flag P2SH set) -/
 theorem p2sh_p2pk_verify (c : Ctx) (fl : Flags) (body : Bytes) (ht : UInt8) (key : Bytes)
-    (hfl : fl.admissible = true) (hp : fl.p2sh = true) (hidx : 0 ≤ c.inIdx) (hk : key.length + 2 < 0x4c)
+    (hfl : fl.admissible = true) (hp : fl.p2sh = true) (hidx : c.SigTotal) (hk : key.length + 2 < 0x4c)
     (hs : body.length + 1 < 0x4c) (hhl : ∀ x, (c.env.hashes.hash160 x).length = 20)
     (hne : body.length + 1 ≠ key.length) :
     verifyScript c fl (p2shScriptSig (p2pkScriptSig (body ++ [ht])) (p2pkScript key))
@@ -408,7 +408,7 @@ theorem p2sh_p2pk_verify (c : Ctx) (fl : Flags) (body : Bytes) (ht : UInt8) (key
 
 /-- P2SH wrapping of pay-to-pubkey-hash -/
 theorem p2sh_p2pkh_verify (c : Ctx) (fl : Flags) (body : Bytes) (ht : UInt8) (key : Bytes)
-    (hfl : fl.admissible = true) (hp : fl.p2sh = true) (hidx : 0 ≤ c.inIdx) (hk : key.length < 0x4c)
+    (hfl : fl.admissible = true) (hp : fl.p2sh = true) (hidx : c.SigTotal) (hk : key.length < 0x4c)
     (hs : body.length + 1 < 0x4c) (hhl : ∀ x, (c.env.hashes.hash160 x).length = 20) (hne : body.length + 1 ≠ 20) :
     verifyScript c fl
         (p2shScriptSig (p2pkhScriptSig (body ++ [ht]) key) (p2pkhScript (c.env.hashes.hash160 key)))
@@ -425,7 +425,7 @@ theorem p2sh_p2pkh_verify (c : Ctx) (fl : Flags) (body : Bytes) (ht : UInt8) (ke
 
 /-- P2SH wrapping of m-of-n multisig (serialised script within the 520-byte element limit) -/
 theorem p2sh_multisig_verify (c : Ctx) (fl : Flags) (m : Nat) (keys sigs : List Bytes)
-    (hfl : fl.admissible = true) (hp : fl.p2sh = true) (hidx : 0 ≤ c.inIdx) (hm1 : 1 ≤ m) (hmn : m ≤ keys.length)
+    (hfl : fl.admissible = true) (hp : fl.p2sh = true) (hidx : c.SigTotal) (hm1 : 1 ≤ m) (hmn : m ≤ keys.length)
     (hn : keys.length ≤ 20) (hsl : sigs.length = m)
     (hk : ∀ k ∈ keys, k.length < 0x4c) (hs : ∀ s ∈ sigs, s.length < 0x4c) (hs1 : ∀ s ∈ sigs, s.length ≠ 1)
     (hne : ∀ s ∈ sigs, ∀ k ∈ keys, s.length ≠ k.length)
@@ -476,7 +476,7 @@ section edits
 open BtcVerif.Model.ScriptEval BtcVerif.Spec.Script BtcVerif.Spec.Templates BtcVerif.C05T
 variable (hashes : Hashes) (ecdsa : Bytes → Bytes → Bytes → Bool) (tx : Tx) (i : Nat) (e : Edit) (fl : Flags)
 
-theorem txCtx_inIdx : 0 ≤ (txCtx hashes ecdsa tx i).inIdx := Int.natCast_nonneg i
+theorem txCtx_inIdx : (txCtx hashes ecdsa tx i).SigTotal := ⟨fun _ _ _ _ _ => ⟨_, rfl⟩⟩
 
 /-- the signature oracle of the edited transaction agrees with that of the original on every
     signature whose hash type leaves the edit uncommitted -/
@@ -839,7 +839,7 @@ theorem p2pk_verify_real (body : Bytes) (ht : UInt8) (key : Bytes)
     verifyScript (realCtx tx (i : Int)) fl (p2pkScriptSig (body ++ [ht])) (p2pkScript key) =
       if ecdsaCheck body key (legacySighash (p2pkScript key) tx i ht.toNat).1 then .ok () else .error .verify := by
   have hl : (p2pkScript key).length < 2 ^ 64 := by simp [p2pkScript, pushData]; omega
-  rw [p2pk_verify _ fl body ht key hfl (realCtx_inIdx tx i) hk hs hne,
+  rw [p2pk_verify _ fl body ht key hfl (realCtx_inIdx tx i hwf) hk hs hne,
     realSigCheck_eq_spec tx i body key _ _ (parses_p2pk key hk) hl hwf ht.toNat_lt]
 
 theorem p2pkh_verify_real (body : Bytes) (ht : UInt8) (key : Bytes)
@@ -850,7 +850,7 @@ theorem p2pkh_verify_real (body : Bytes) (ht : UInt8) (key : Bytes)
       else .error .verify := by
   have hh := realHashes_hash160_length key
   have hl : (p2pkhScript (realHashes.hash160 key)).length < 2 ^ 64 := by simp [p2pkhScript, pushData, hh]
-  have e := p2pkh_verify (realCtx tx (i : Int)) fl body ht key hfl (realCtx_inIdx tx i) hk hs
+  have e := p2pkh_verify (realCtx tx (i : Int)) fl body ht key hfl (realCtx_inIdx tx i hwf) hk hs
     (real_hash160_length tx i key) hne
   rw [show (realCtx tx (i : Int)).env.hashes.hash160 key = realHashes.hash160 key from rfl] at e
   rw [e, realSigCheck_eq_spec tx i body key _ _ (parses_p2pkh _ (by omega)) hl hwf ht.toNat_lt]
@@ -872,7 +872,7 @@ theorem multisig_verify_real (m : Nat) (keys sigs : List Bytes)
   have hchk : chkSig (realCtx tx (i : Int)).env (multisigScript m keys) = chk := by
     funext s k
     exact real_chkSig tx i _ s k (parses_multisig m keys hk) hl hwf
-  have := multisig_verify (realCtx tx (i : Int)) fl m keys sigs hfl (realCtx_inIdx tx i) hm1 hmn hn hsl hk hs hs1 hne
+  have := multisig_verify (realCtx tx (i : Int)) fl m keys sigs hfl (realCtx_inIdx tx i hwf) hm1 hmn hn hsl hk hs hs1 hne
   rw [hchk] at this
   exact this
 
@@ -883,7 +883,7 @@ theorem p2sh_p2pk_verify_real (body : Bytes) (ht : UInt8) (key : Bytes)
         (p2shScript (realHashes.hash160 (p2pkScript key))) =
       if ecdsaCheck body key (legacySighash (p2pkScript key) tx i ht.toNat).1 then .ok () else .error .verify := by
   have hl : (p2pkScript key).length < 2 ^ 64 := by simp [p2pkScript, pushData]; omega
-  have e := p2sh_p2pk_verify (realCtx tx (i : Int)) fl body ht key hfl hp (realCtx_inIdx tx i) hk hs
+  have e := p2sh_p2pk_verify (realCtx tx (i : Int)) fl body ht key hfl hp (realCtx_inIdx tx i hwf) hk hs
     (real_hash160_length tx i) hne
   rw [show (realCtx tx (i : Int)).env.hashes = realHashes from rfl] at e
   rw [e, realSigCheck_eq_spec tx i body key _ _ (parses_p2pk key (by omega)) hl hwf ht.toNat_lt]
@@ -898,7 +898,7 @@ theorem p2sh_p2pkh_verify_real (body : Bytes) (ht : UInt8) (key : Bytes)
   intro redeem
   have hh := realHashes_hash160_length key
   have hl : redeem.length < 2 ^ 64 := by simp [redeem, p2pkhScript, pushData, hh]
-  have e := p2sh_p2pkh_verify (realCtx tx (i : Int)) fl body ht key hfl hp (realCtx_inIdx tx i) hk hs
+  have e := p2sh_p2pkh_verify (realCtx tx (i : Int)) fl body ht key hfl hp (realCtx_inIdx tx i hwf) hk hs
     (real_hash160_length tx i) hne
   rw [show (realCtx tx (i : Int)).env.hashes = realHashes from rfl] at e
   rw [e, realSigCheck_eq_spec tx i body key _ _ (parses_p2pkh _ (by omega)) hl hwf ht.toNat_lt]
@@ -917,7 +917,7 @@ theorem p2sh_multisig_verify_real (m : Nat) (keys sigs : List Bytes)
   have hchk : chkSig (realCtx tx (i : Int)).env redeem = chk := by
     funext s k
     exact real_chkSig tx i _ s k (parses_multisig m keys hk) (by show (multisigScript m keys).length < 2 ^ 64; omega) hwf
-  have := p2sh_multisig_verify (realCtx tx (i : Int)) fl m keys sigs hfl hp (realCtx_inIdx tx i) hm1 hmn hn hsl hk hs
+  have := p2sh_multisig_verify (realCtx tx (i : Int)) fl m keys sigs hfl hp (realCtx_inIdx tx i hwf) hm1 hmn hn hsl hk hs
     hs1 hne hrl (real_hash160_length tx i)
   simp only at this
   rw [show (realCtx tx (i : Int)).env.hashes = realHashes from rfl, hchk] at this
@@ -976,7 +976,7 @@ theorem multisig_real_eq_reference (m : Nat) (keys sigs : List Bytes)
       verifyScript (txCtx realHashes ecdsaCheck tx i) fl (multisigScriptSig sigs) (multisigScript m keys) := by
   have hl : (multisigScript m keys).length < 2 ^ 64 := by
     have := multisig_length_le m keys hk; omega
-  rw [verify_multisig _ fl m keys sigs hfl (realCtx_inIdx tx i) hm1 hmn hn hsl hk hs hs1 hne,
+  rw [verify_multisig _ fl m keys sigs hfl (realCtx_inIdx tx i hwf) hm1 hmn hn hsl hk hs hs1 hne,
     verify_multisig _ fl m keys sigs hfl (txCtx_inIdx ..) hm1 hmn hn hsl hk hs hs1 hne]
   have : chkSig (realCtx tx (i : Int)).env (multisigScript m keys) =
       chkSig (txCtx realHashes ecdsaCheck tx i).env (multisigScript m keys) := by
@@ -1025,7 +1025,7 @@ theorem p2sh_multisig_real_eq_reference (m : Nat) (keys sigs : List Bytes)
       verifyScript (txCtx realHashes ecdsaCheck tx i) fl (p2shScriptSig (multisigScriptSig sigs) redeem)
         (p2shScript (realHashes.hash160 redeem)) := by
   intro redeem
-  have e1 := verify_p2sh_multisig (realCtx tx (i : Int)) fl m keys sigs hfl hp (realCtx_inIdx tx i)
+  have e1 := verify_p2sh_multisig (realCtx tx (i : Int)) fl m keys sigs hfl hp (realCtx_inIdx tx i hwf)
     hm1 hmn hn hsl hk hs hs1 hne hrl (real_hash160_length tx i)
   have e2 := verify_p2sh_multisig (txCtx realHashes ecdsaCheck tx i) fl m keys sigs hfl hp (txCtx_inIdx ..)
     hm1 hmn hn hsl hk hs hs1 hne hrl realHashes_hash160_length
@@ -1261,7 +1261,11 @@ open BtcVerif.Model.ScriptEval BtcVerif.Spec.Script BtcVerif.Spec.Templates BtcV
 def exEnv : Env :=
   { hashes := { sha1 := fun _ => [], ripemd160 := fun _ => List.replicate 20 7, sha256 := fun x => x }
     sigCheck := fun body key _ _ => body[1]? == key[1]? }
-def exCtx : Ctx := { env := exEnv, inIdx := 1, nVin := 3, nVout := 3 }
+def exCtx : Ctx :=
+  { hashes := exEnv.hashes, sigHash := fun _ _ => .ok [], sigVerify := fun body key _ => body[1]? == key[1]? }
+theorem exCtx_total : exCtx.SigTotal := ⟨fun _ _ _ _ _ => ⟨_, rfl⟩⟩
+/-- lets the `by decide` of the examples below discharge the `SigTotal` hypothesis -/
+instance : Decidable exCtx.SigTotal := isTrue exCtx_total
 def exKey (j : UInt8) : Bytes := 2 :: List.replicate 32 j
 def exBody (j : UInt8) : Bytes := 0x30 :: j :: List.replicate 68 0
 def exFlags : Flags := { p2sh := true, nullDummy := true, cleanStack := true, discourageNops := false }
@@ -1344,14 +1348,14 @@ example : verifyScript (toyCtx exTx) exFlags (p2pkScriptSig (toySig (exKey 5) (e
     (p2pkScript (exKey 5)) = .ok () :=
   template_accepts_p2pk (toyCtx exTx) exFlags _ 0x83 (exKey 5) (by decide) (txCtx_inIdx ..) (by decide)
     (toySig_size 5 exTx (by decide)).1 (toySig_size 5 exTx (by decide)).2
-    (by simp [toyCtx, txCtx, txEnv, toyEcdsa, exDigest])
+    (by simp [toyCtx, txCtx, Ctx.env, toyEcdsa, exDigest])
 
 /-- REJECTS, wrong key: the same digest signed by key 6 does not spend an output of key 5 -/
 example : verifyScript (toyCtx exTx) exFlags (p2pkScriptSig (toySig (exKey 6) (exDigest exTx) ++ [0x83]))
     (p2pkScript (exKey 5)) = .error .verify :=
   template_rejects_wrong_key_p2pk (toyCtx exTx) exFlags _ 0x83 (exKey 5) (by decide) (txCtx_inIdx ..) (by decide)
     (toySig_size 6 exTx (by decide)).1 (toySig_size 6 exTx (by decide)).2
-    (by simp [toyCtx, txCtx, txEnv, toyEcdsa, toySig, exKey_take])
+    (by simp [toyCtx, txCtx, Ctx.env, toyEcdsa, toySig, exKey_take])
 
 /-- UNCOMMITTED edit: output 0 is not committed under SINGLE|ANYONECANPAY at input 1 — still accepted -/
 example : verifyScript (toyCtx (apply (.setValue 0 5) exTx)) exFlags
@@ -1363,7 +1367,7 @@ example : verifyScript (toyCtx (apply (.setValue 0 5) exTx)) exFlags
   rw [h]
   exact template_accepts_p2pk (toyCtx exTx) exFlags _ 0x83 (exKey 5) (by decide) (txCtx_inIdx ..) (by decide)
     (toySig_size 5 exTx (by decide)).1 (toySig_size 5 exTx (by decide)).2
-    (by simp [toyCtx, txCtx, txEnv, toyEcdsa, exDigest])
+    (by simp [toyCtx, txCtx, Ctx.env, toyEcdsa, exDigest])
 
 theorem exTx_edited_wf : WFc (apply (.setValue 1 5) exTx) := by
   refine ⟨by decide, by decide, by decide, by decide, ?_, ?_, by decide⟩
